@@ -29,6 +29,85 @@ type c06gen struct {
 	vc     int
 	hashes []string // every hash ever mentioned (for lookups), including unknown ones
 	node   bool
+	adv    bool     // adversarial names: hashes / keys of different lengths, prefixes and suffixes of one string
+	hpool  []string // hashes still to hand out in adversarial mode
+}
+
+// initAdv replaces the fixed-format names (h<n>, k<n>) by names that collide under every naive way of combining a block
+// hash with a key: all hashes and keys are prefixes / suffixes of ONE random string over an alphabet that contains the
+// usual separator characters, so that h1+k1 == h2+k2 (and k1+h1 == k2+h2, and with a separator in between) for several
+// pairs on purpose; a key equal to a hash; the empty key (token "-").
+func (g *c06gen) initAdv() {
+	g.adv = true
+	r := g.r
+	alpha := []string{"a", "a", "b", "b", "1", ":", "/", "|", ".", "_", "#", ","}
+	n := 4 + r.Intn(3)
+	s := ""
+	for i := 0; i < n; i++ {
+		s += alpha[r.Intn(len(alpha))]
+	}
+	seen := map[string]bool{"-": true, "": true}
+	var names []string
+	add := func(x string) {
+		if !seen[x] {
+			seen[x] = true
+			names = append(names, x)
+		}
+	}
+	// two splits of s first: h1+k1 == h2+k2 == s
+	i := 1 + r.Intn(n-1)
+	j := 1 + r.Intn(n-1)
+	for j == i {
+		j = 1 + r.Intn(n-1)
+	}
+	g.hpool = nil
+	g.keys = nil
+	for _, c := range []int{i, j} {
+		add(s[:c])
+		g.hpool = append(g.hpool, s[:c])
+		g.keys = append(g.keys, s[c:])
+	}
+	for c := 1; c < n; c++ {
+		add(s[:c])
+		add(s[c:])
+	}
+	add(s)
+	r.Shuffle(len(names), func(a, b int) { names[a], names[b] = names[b], names[a] })
+	for _, x := range names {
+		dup := false
+		for _, h := range g.hpool {
+			dup = dup || h == x
+		}
+		if !dup {
+			g.hpool = append(g.hpool, x)
+		}
+	}
+	// keys: the two suffixes, sometimes a hash itself, sometimes the empty key; duplicates removed
+	if r.Intn(2) == 0 {
+		g.keys = append(g.keys, g.hpool[r.Intn(len(g.hpool))])
+	}
+	if r.Intn(3) == 0 {
+		g.keys = append(g.keys, "-")
+	}
+	uniq := g.keys[:0]
+	ks := map[string]bool{}
+	for _, k := range g.keys {
+		if !ks[k] {
+			ks[k] = true
+			uniq = append(uniq, k)
+		}
+	}
+	g.keys = uniq
+}
+
+// freshHash names block #n
+func (g *c06gen) freshHash(n int) string {
+	if g.adv && len(g.hpool) > 0 {
+		h := g.hpool[0]
+		g.hpool = g.hpool[1:]
+		return h
+	}
+	return fmt.Sprintf("h%d", n)
 }
 
 func (g *c06gen) emit(f string, a ...interface{}) { g.ops = append(g.ops, fmt.Sprintf(f, a...)) }
@@ -65,7 +144,7 @@ func (g *c06gen) anyHash() string {
 func (g *c06gen) newBlock() {
 	g.nb++
 	bid := fmt.Sprintf("b%d", g.nb)
-	hash := fmt.Sprintf("h%d", g.nb)
+	hash := g.freshHash(g.nb)
 	prev := "-"
 	x := g.r.Intn(100)
 	switch {
@@ -186,7 +265,7 @@ func (g *c06gen) stepExtra() {
 	case x < 6 || !g.noRemove:
 		g.nb++
 		g.nt++
-		bid, hash, t := fmt.Sprintf("b%d", g.nb), fmt.Sprintf("h%d", g.nb), fmt.Sprintf("t%d", g.nt)
+		bid, hash, t := fmt.Sprintf("b%d", g.nb), g.freshHash(g.nb), fmt.Sprintf("t%d", g.nt)
 		prev := "-"
 		if len(g.blocks) > 0 {
 			prev = g.blocks[g.r.Intn(len(g.blocks))].hash
@@ -200,7 +279,7 @@ func (g *c06gen) stepExtra() {
 		// model keeps the private world in the shared map under prefixed hashes, a Remove would drop those too)
 		g.nb++
 		bid := fmt.Sprintf("b%d", g.nb)
-		hash, prev := fmt.Sprintf("h%d", g.nb), "-"
+		hash, prev := g.freshHash(g.nb), "-"
 		if len(g.blocks) > 0 {
 			o := g.blocks[g.r.Intn(len(g.blocks))]
 			if g.r.Intn(2) == 0 {
@@ -283,7 +362,7 @@ func (g *c06gen) stepRandom() {
 	case x < 74:
 		if b := g.pickBlock(false); b != nil && !b.private && g.r.Intn(3) == 0 {
 			g.nb++
-			nh := fmt.Sprintf("h%d", g.nb)
+			nh := g.freshHash(g.nb)
 			g.emit("bhash %s %s", b.bid, nh)
 			b.hash = nh
 			g.hashes = append(g.hashes, nh)
@@ -296,6 +375,22 @@ func (g *c06gen) stepRandom() {
 		}
 	default:
 		g.lookup()
+	}
+}
+
+// querySweep looks every key up at every block through a fresh QueryBlockCache, twice (an answer given once must not
+// change the next one — for the same or for ANY other block / key)
+func (g *c06gen) querySweep() {
+	hs := g.hashes
+	if len(hs) > 8 {
+		hs = hs[len(hs)-8:]
+	}
+	for pass := 0; pass < 2; pass++ {
+		for _, h := range hs {
+			for _, k := range g.keys {
+				g.emit("qget %s %s", h, k)
+			}
+		}
 	}
 }
 
@@ -339,6 +434,9 @@ func genC06(r *rand.Rand, tier string, idx int) []string {
 	if idx%8 == 5 {
 		return genC06InOrder(g)
 	}
+	if idx%4 == 1 {
+		g.initAdv()
+	}
 	maxOps := 36
 	if tier == "thorough" {
 		maxOps = 90
@@ -347,12 +445,15 @@ func genC06(r *rand.Rand, tier string, idx int) []string {
 	for len(g.ops) < n {
 		g.stepRandom()
 	}
-	// closing sweep: every key at a few blocks, tip last-but-one and old ones interleaved
+	// closing sweep: every key at a few blocks, tip last-but-one and old ones interleaved, directly and through
+	// query block caches
 	for _, k := range g.keys {
 		for j := 0; j < 3; j++ {
 			g.emit("sget %s %s", k, g.anyHash())
+			g.emit("qget %s %s", g.anyHash(), k)
 		}
 	}
+	g.querySweep()
 	return g.ops
 }
 
